@@ -61,13 +61,13 @@ def check(c, item):
         names = sp['species']
         # species and values
         d1, d2 = m.get_species_dictionary(), m2.get_species_dictionary()
-        if set(d1) != set(d2) or any(abs(float(d1[s]) - float(d2[s])) > 1e-12 for s in d1):
+        if set(d1) != set(d2) or any(abs(float(d1[s]) - float(d2[s])) > 1e-12 * max(abs(float(d1[s])), abs(float(d2[s]))) for s in d1):
             c.violation(key + 'species', 'species %s became %s' % (d1, d2), case)
             return
         p1, p2 = m.get_parameter_dictionary(), m2.get_parameter_dictionary()
         for k, v in p1.items():
             k2 = k[1:] if k.startswith('_') else k
-            if k2 not in p2 or abs(float(p2[k2]) - float(v)) > 1e-12 * (1 + abs(float(v))):
+            if k2 not in p2 or abs(float(p2[k2]) - float(v)) > 1e-12 * max(abs(float(p2[k2])), abs(float(v))):
                 c.violation(key + 'parameter', 'parameter %s=%r became %r' % (k, v, p2.get(k2)), case)
         # stoichiometry aligned by species name
         o1, o2 = m.get_species_list(), m2.get_species_list()
@@ -102,7 +102,7 @@ def check(c, item):
                     c.count('evaluations'); c.count('transitions')
                     if math.isfinite(a) and a != 0:
                         nontrivial = True
-                    if not ((math.isnan(a) and math.isnan(b)) or a == b or abs(a - b) <= 1e-10 * (1 + abs(a))):
+                    if not ((math.isnan(a) and math.isnan(b)) or a == b or abs(a - b) <= 1e-10 * max(abs(a), abs(b))):
                         c.violation(key + 'rate-' + form, 'reaction %d %s rate %r became %r at %s' % (ri, form, a, b, x), dict(case, x=x))
                         return
         # delays: class and parameters (same scripted stream -> same delay)
@@ -192,7 +192,7 @@ def shared_delay_specs():
 
 
 def run(ctx):
-    specs = FAM.single_reaction_specs(ctx.tier) + FAM.rule_specs(ctx.tier) + FAM.multi_specs(ctx.tier) + shared_delay_specs() + FAM.big_specs(ctx.tier)
+    specs = FAM.single_reaction_specs(ctx.tier) + FAM.rule_specs(ctx.tier) + FAM.multi_specs(ctx.tier) + shared_delay_specs() + FAM.big_specs(ctx.tier) + FAM.magnitude_specs()
     items = [(s, st) for s in specs for st in (False, True)]
     pmap(check, items, ctx, nshards=256)
     ctx.bounds = dict(models=len(specs), round_trips=len(items))
